@@ -49,6 +49,16 @@ func weakenMore(t *rapid.T, a, conc spec.V, dynPos bool) spec.V {
 	if len(a.Elems) == 0 || len(a.Elems) != len(conc.Elems) {
 		return a
 	}
+	if a.T.IsColl() {
+		for _, m := range a.Elems {
+			if m.Retype().T.HasDynamic() {
+				// members that share a type with a placeholder in it (Weaken's
+				// uniform DynamicVal positions): replacing one of them by an
+				// unknown of its concrete type would break the common type
+				return a
+			}
+		}
+	}
 	out := a
 	out.Elems = make([]spec.V, len(a.Elems))
 	childDyn := dynPos && (a.T.K == spec.KTuple || a.T.K == spec.KObject)
